@@ -40,6 +40,9 @@ def layouts(ty, has_int_repr):
     out = []
     out.append(("implicit", [("A", UNIT, None), ("B", UNIT, None), ("C", UNIT, None)]))
     out.append(("first", [("A", UNIT, "5"), ("B", UNIT, None), ("C", UNIT, None)]))
+    # variants named by raw identifiers (fix fa7e5bd: the derive panicked on them)
+    out.append(("raw_names", [("r#type", UNIT, "3"), ("r#match", UNIT, None), ("Plain", ETUP, None), ("r#fn", EBRACE, "9")] if has_int_repr
+                else [("r#type", UNIT, None), ("r#match", UNIT, None), ("Plain", ETUP, None)]))
     out.append(("gaps", [("A", UNIT, "1"), ("B", UNIT, "4"), ("C", UNIT, None), ("D", UNIT, "9"),
                          ("E", UNIT, None)]))
     if has_int_repr:
